@@ -47,6 +47,9 @@ def chain_of(e: T.ENode, parent: dict) -> list[tuple]:
     return list(reversed(out))
 
 
+FIELD_CHILD = "child"
+
+
 def derive(chain: list[tuple], bits: int, perturb: int) -> tuple[list[dict], bool]:
     """spell the true chain, then generalise: per element 3 bits (keep field, keep index, class
     exact/base/none) + 1 bit (replace the element and everything up to the next kept one by //)."""
@@ -73,19 +76,37 @@ def derive(chain: list[tuple], bits: int, perturb: int) -> tuple[list[dict], boo
     if relative and steps and X.is_marker(steps[0]):
         relative = False
     # perturbations: off-by-one index, other field
-    p = perturb % 7
-    real = [s for s in steps if not X.is_marker(s)]
-    if p == 1 and real:
-        s = real[perturb // 7 % len(real)]
-        if s["index"] not in (None, ""):
-            s["index"] = str(int(s["index"]) + 1)
-    elif p == 2 and real:
-        s = real[perturb // 7 % len(real)]
-        if s["index"] not in (None, "") and len(s["index"]) >= 2:
-            s["index"] = s["index"][0]  # what a first-digit-only parser would read
-    elif p == 3 and real:
-        real[perturb // 7 % len(real)]["field"] = "child"
+    for p, sel in ((perturb % 8, perturb // 64), ((perturb // 8) % 8, perturb // 128 + 1)):
+        real = [s for s in steps if not X.is_marker(s)]
+        if p == 1 and real:
+            s = real[sel % len(real)]
+            if s["index"] not in (None, ""):
+                s["index"] = str(int(s["index"]) + 1)
+        elif p == 2 and real:
+            s = real[sel % len(real)]
+            if s["index"] not in (None, "") and len(s["index"]) >= 2:
+                s["index"] = s["index"][0]  # what a first-digit-only parser would read
+        elif p == 3 and real and FIELD_CHILD:
+            real[sel % len(real)]["field"] = FIELD_CHILD
+        elif p == 4 and len(real) >= 3:
+            # drop a middle step without leaving a `//` behind: adjacency must now fail
+            victim = real[1 + sel % (len(real) - 2)]
+            steps = [s for s in steps if s is not victim]
+        elif p == 5:
+            # turn one `//` into `/`
+            markers = [s for s in steps if X.is_marker(s)]
+            if markers:
+                victim = markers[sel % len(markers)]
+                steps = [s for s in steps if s is not victim]
+        elif p == 6 and len(steps) >= 2:
+            # insert a `//` between two steps (a direct child is still a descendant)
+            k = 1 + sel % (len(steps) - 1)
+            if not X.is_marker(steps[k]) and not X.is_marker(steps[k - 1]):
+                steps = [*steps[:k], {"field": None, "index": None, "cls": None}, *steps[k:]]
     return steps, relative
+
+
+MRO_OF = lambda c: [*M.mro_names(c), "ASTNode"]  # noqa: E731
 
 
 def check_tree(data: dict, lab: Labels) -> None:
@@ -104,6 +125,10 @@ def check_tree(data: dict, lab: Labels) -> None:
             steps, relative, ws = xp[1], xp[2], xp[3]
             if relative and X.is_marker(steps[0]):
                 relative = False
+        elif xp[0] == "subseq":
+            target = nodes[xp[1] % len(nodes)]
+            steps, relative = X.subsequence_path(chains[target.uid], MRO_OF, xp[2], xp[3], xp[4])
+            ws = 0
         else:
             target = nodes[xp[1] % len(nodes)]
             steps, relative = derive(chains[target.uid], xp[2], xp[3])
@@ -134,7 +159,7 @@ def check_tree(data: dict, lab: Labels) -> None:
         lab.tag_if(any(s["field"] == "child" for s, _ in rs), "field-child")
         lab.tag_if(id(root) in exp_ids, "root-in-result")
         lab.tag_if(bool(exp), "nonempty-result")
-        lab.tag("derived" if xp[0] != "raw" else "raw")
+        lab.tag(xp[0])
         if len(rs) >= 2 and 0 < len(exp) < len(nodes):
             any_nt = True
         lab.count("xpaths")
@@ -146,10 +171,12 @@ def st_case(ctx: Ctx):
     raw = st.tuples(st.just("raw"), X.st_steps(CLASS_NAMES, FIELD_NAMES), st.booleans(), st.integers(0, 2**12)).map(list)
     derived = st.tuples(st.just("derived"), st.integers(0, 60), st.integers(0, 2**30), st.integers(0, 500),
                         st.sampled_from([0, 0, 0, 5, 1023, 77])).map(list)
+    subseq = st.tuples(st.just("subseq"), st.integers(0, 60), st.integers(0, 255), st.integers(0, 255),
+                       st.integers(0, 2**16)).map(list)
     return st.fixed_dictionaries(
         {
             "tree": st.one_of(g.inner_tree(), g.inner_tree(), g.tree()),
-            "xpaths": st.lists(st.one_of(raw, derived, derived), min_size=4, max_size=4),
+            "xpaths": st.lists(st.one_of(raw, derived, derived, subseq, subseq), min_size=5, max_size=5),
         }
     )
 
